@@ -91,6 +91,7 @@ func (c cfg) String() string {
 
 func main() {
 	res = report.Init("C02", "fault_enumeration")
+	estale()
 	th := report.Thorough()
 	fs := faults(th)
 	engines := []string{"sherpa", "olla"}
